@@ -631,7 +631,7 @@ func init() {
 func c10closeRace() zzmc.Scenario {
 	return zzmc.Scenario{
 		Name:     "api-close-vs-close",
-		Focus:    []string{"taskloop.go"},
+		Focus:    []string{"taskloop.go", "agent_handlers.go"}, // the closers also meet in the three notifiers
 		MaxSteps: 4000,
 		Setup: func(s *zzmc.Sched) func(string) (string, string) {
 			a, err := NewAgentWithOptions(WithNet(vNet{}), WithMulticastDNSMode(MulticastDNSModeDisabled), WithNetworkTypes([]NetworkType{NetworkTypeUDP4}),
